@@ -65,6 +65,7 @@ SELF_FIELDS = {
               "_fitness_i": "float64[:]", "_population_g_i": "int8[:, :]"},
     "SelfCGA": {"_K": "float64", "_iters": "int64"},
     "EvolutionaryAlgorithm": {"_pop_size": "int64", "_cpu_count": "int64"},
+    "SamplingGrid": {"_powers": "int64[:]"}, "GrayCode": {"_powers": "int64[:]"},
     "GeneticAlgorithm": {"_fitness_scale_i": "float64[:]", "_fitness_rank_i": "float64[:]", "_population_g_i": "int8[:, :]"},
     "PDPGA": {"_fitness_scale_i": "float64[:]", "_fitness_rank_i": "float64[:]", "_population_g_i": "int8[:, :]", "_fitness_i": "float64[:]"},
     "jDE": {"_pop_size": "int64", "_F": "float64[:]", "_CR": "float64[:]", "_t_F": "float64", "_t_CR": "float64", "_F_min": "float64", "_F_max": "float64"},
@@ -90,6 +91,13 @@ METHOD_TARGETS_0 = [
     ("optimizers/_shaga.py", "SHAGA", "_get_new_individ_g", "SHAGA_get_new_individ_g", "int8[:](int8[:], float64, float64)", {}),
     ("optimizers/_differentialevolution.py", "DifferentialEvolution", "_get_new_individ_g", "DE_get_new_individ_g", "float64[:](float64[:], float64, float64)", {}),
     ("optimizers/_geneticalgorithm.py", "GeneticAlgorithm", "_get_new_individ_g", "GA_get_new_individ_g", "int8[:]()", {}),
+    # the binary / Gray decoders of the sampling grid (C10): static methods, whole-array numpy
+    ("utils/transformations.py", "SamplingGrid", "bit_to_int", "bit_to_int_default", "int64[:](int8[:, :])", {"powers": None}),
+    ("utils/transformations.py", "SamplingGrid", "bit_to_int", "bit_to_int_powers", "int64[:](int8[:, :], int64[:])", {}),
+    ("utils/transformations.py", "GrayCode", "gray_to_bit", "gray_to_bit", "int8[:, :](int8[:, :])", {}),
+    ("utils/transformations.py", "GrayCode", "bit_to_gray", "bit_to_gray", "int8[:, :](int8[:, :])", {}),
+    ("utils/transformations.py", "SamplingGrid", "_decode", "SamplingGrid_decode", "int64[:](int8[:, :])", {}),
+    ("utils/transformations.py", "GrayCode", "_decode", "GrayCode_decode", "int64[:](int8[:, :])", {}),
     # n_jobs normalisation (C16): os.cpu_count() is the parameter `cpu`; `raise` is the failing computation
     ("base/_ea.py", "EvolutionaryAlgorithm", "_get_n_jobs", "EA_get_n_jobs", "int64(int64)", {}),
     ("optimizers/_pdpga.py", "PDPGA", "_choice_parent", "PDPGA_choice_parent", "float64(float64[:])", {}),
@@ -110,6 +118,7 @@ POOL_LOCALS = {"GA_get_new_individ_g": [
      [("mutation_func", ("F", "list Z -> Q -> M (list Z)", "int8[:]", ["int8[:]", "float64"])), ("proba", "float64"), ("is_constant_rate", "boolean")]),
 ]}
 C16_METHODS = ["EA_get_n_jobs"]
+C10_METHODS = ["bit_to_int_default", "bit_to_int_powers", "gray_to_bit", "bit_to_gray", "SamplingGrid_decode", "GrayCode_decode"]
 C07_METHODS = ["SHADE_get_new_individ_g", "DE_get_new_individ_g"]
 POOL_LOCALS["PDPGA_get_new_individ_g"] = POOL_LOCALS["GA_get_new_individ_g"]
 # `self._f.append(E)` exactly once on every path: the appended value is part of the result — the function returns (appended value, result)
@@ -122,7 +131,7 @@ CALL_SPECS = {
     ("lehmer_mean", ("x",)): "lehmer_mean_unweighted",
     ("lehmer_mean", ("weight", "x")): "lehmer_mean_weighted",
 }
-C15_METHODS = [t[3] for t in METHOD_TARGETS if t[3] not in C14_METHODS + C07_METHODS + C06_METHODS + C16_METHODS]
+C15_METHODS = [t[3] for t in METHOD_TARGETS if t[3] not in C14_METHODS + C07_METHODS + C06_METHODS + C16_METHODS + C10_METHODS]
 
 # functions without an @njit signature: parameter / return types written as the signature would be
 MANUAL_SIGS = {
@@ -501,6 +510,8 @@ class Translator:
             tab = {ast.Add: "vadd", ast.Sub: "vsub", ast.Mult: "vmulv"}
             if type(op) in tab:
                 return f"({tab[type(op)]} {a} {b})", L(Q)
+        if isinstance(op, ast.Pow) and a == "2" and ta == Z and tb == L(Z):
+            return f"(pow2s {b})", L(Z)
         if ta in (Z, Q) and tb == L(Q) and isinstance(op, ast.Mult):
             return f"(smul {self.coerce(a, ta, Q, node)} {b})", L(Q)
         if ta == L(Q) and tb in (Z, Q) and isinstance(op, ast.Mult):
@@ -536,6 +547,15 @@ class Translator:
                 k, _ = self.expr(fn, sc, sl.lower, pre, Z)
                 return f"(sliceFrom {c} {k})", t
             raise Untranslatable(e, "slice form")
+        if isinstance(sl, ast.Tuple) and len(sl.elts) == 2 and t == L(L(Z)) and ast.unparse(sl.elts[0]) == ":" or \
+                (isinstance(sl, ast.Tuple) and len(sl.elts) == 2 and t == L(L(Z)) and isinstance(sl.elts[0], ast.Slice)
+                 and sl.elts[0].lower is None and sl.elts[0].upper is None and sl.elts[0].step is None):
+            col = ast.unparse(sl.elts[1])
+            if col == ":-1":
+                return f"(cols_but_last {c})", t
+            if col == "1:":
+                return f"(cols_from1 {c})", t
+            raise Untranslatable(e, "column slice " + col)
         if isinstance(sl, ast.Tuple):
             if len(sl.elts) == 2 and t == L(L(Z)):
                 (i, ti), (j, tj) = self._expr(fn, sc, sl.elts[0], pre), self._expr(fn, sc, sl.elts[1], pre)
@@ -633,7 +653,7 @@ class Translator:
             want = self._dtype(e.args[0])
             if t == L(B) and want == Z:        # produced by eqmaskZ (already 0/1 ints)
                 return c, L(Z)
-            if t == L(Z) and want == Z or t == L(Q) and want == Q:
+            if t == L(Z) and want == Z or t == L(Q) and want == Q or t == L(L(Z)) and want == Z:
                 return c, t
             raise Untranslatable(e, f"astype {t} -> {want}")
         if name in ("np.empty", "np.zeros"):
@@ -691,6 +711,37 @@ class Translator:
             if t == L(Q):
                 return f"(meanQ {c})", Q
             raise Untranslatable(e, "mean of " + str(t))
+        if name == "np.flip" and len(e.args) == 1 and not e.keywords:
+            c, t = self._expr(fn, sc, e.args[0], pre)
+            if is_list(t) and not is_list(t[1]):
+                return f"(rev {c})", t
+            raise Untranslatable(e, "flip of " + str(t))
+        if name == "np.dot" and len(e.args) == 2 and not e.keywords:
+            (a, ta), (b, tb) = self._expr(fn, sc, e.args[0], pre), self._expr(fn, sc, e.args[1], pre)
+            if ta == L(L(Z)) and tb == L(Z):
+                return f"(matvecZ {a} {b})", L(Z)
+            raise Untranslatable(e, f"dot of {ta}, {tb}")
+        if name == "np.logical_xor.accumulate" and len(e.args) == 1 and [(k.arg, ast.unparse(k.value)) for k in e.keywords] == [("axis", "-1")]:
+            c, t = self._expr(fn, sc, e.args[0], pre)
+            if t == L(L(Z)):
+                return f"(xor_accumulate_rows {c})", L(L(Z))
+            raise Untranslatable(e, "xor.accumulate of " + str(t))
+        if name == "np.logical_xor" and len(e.args) == 2 and not e.keywords:
+            (a, ta), (b, tb) = self._expr(fn, sc, e.args[0], pre), self._expr(fn, sc, e.args[1], pre)
+            if ta == L(L(Z)) and tb == L(L(Z)):
+                return f"(logical_xor2 {a} {b})", L(L(Z))
+            raise Untranslatable(e, f"logical_xor of {ta}, {tb}")
+        if name == "np.hstack" and len(e.args) == 1 and isinstance(e.args[0], ast.List) and len(e.args[0].elts) == 2:
+            first, second = e.args[0].elts
+            # np.hstack([m[:, 0].reshape(-1, 1), rest]): the first column of m in front of every row of rest
+            if isinstance(first, ast.Call) and isinstance(first.func, ast.Attribute) and first.func.attr == "reshape" \
+                    and [ast.unparse(a_) for a_ in first.args] == ["-1", "1"] and isinstance(first.func.value, ast.Subscript) \
+                    and ast.unparse(first.func.value.slice) in ("(:, 0)", ":, 0"):
+                m_, tm = self._expr(fn, sc, first.func.value.value, pre)
+                r_, tr = self._expr(fn, sc, second, pre)
+                if tm == L(L(Z)) and tr == L(L(Z)):
+                    return f"(hstack_col0 {m_} {r_})", L(L(Z))
+            raise Untranslatable(e, "hstack form")
         if name == "np.append" and len(e.args) == 2 and [(k.arg, ast.unparse(k.value)) for k in e.keywords] == [("axis", "0")]:
             (a, ta), (b, tb) = self._expr(fn, sc, e.args[0], pre), self._expr(fn, sc, e.args[1], pre)
             if ta == tb and is_list(ta) and is_list(ta[1]):
@@ -774,7 +825,7 @@ class Translator:
                 return True
             if isinstance(e.func, ast.Attribute) and e.func.attr == "clip":
                 return True
-            if n == "np.append":
+            if n in ("np.append", "np.dot", "np.flip", "np.hstack", "np.logical_xor", "np.logical_xor.accumulate"):
                 return True
             if isinstance(e.func, ast.Name) and e.func.id in self.funcs:
                 return self.funcs[e.func.id]["returns_fresh"]
@@ -1324,7 +1375,8 @@ def specialise(node, cls, out_name, consts, method_fields):
     node = copy.deepcopy(node)
     params = [a.arg for a in node.args.args]
     used_fields = []
-    if cls is not None:
+    is_static = any(isinstance(d_, ast.Name) and d_.id == "staticmethod" for d_ in node.decorator_list)
+    if cls is not None and not is_static:
         if params[:1] != ["self"]:
             raise Untranslatable(node, "method without self")
         params = params[1:]
@@ -1360,6 +1412,10 @@ def specialise(node, cls, out_name, consts, method_fields):
                     used_fields.append("_cpu_count")
                 return ast.copy_location(ast.Name(id="self_cpu_count", ctx=ast.Load()), n)
             # self._m(...)  ->  Class_m(<fields of the callee>, ...)
+            if isinstance(n.func, ast.Attribute) and isinstance(n.func.value, ast.Name) and n.func.value.id == "self" \
+                    and n.func.attr in STATIC_VIA_SELF and len(n.args) == STATIC_VIA_SELF[n.func.attr][1] and not n.keywords:
+                return ast.copy_location(ast.Call(func=ast.Name(id=STATIC_VIA_SELF[n.func.attr][0], ctx=ast.Load()),
+                                                  args=[self_.visit(a) for a in n.args], keywords=[]), n)
             if isinstance(n.func, ast.Attribute) and isinstance(n.func.value, ast.Name) and n.func.value.id == "self":
                 key = (cls, n.func.attr)
                 if key not in method_fields:
@@ -1388,10 +1444,11 @@ def specialise(node, cls, out_name, consts, method_fields):
         def visit_Name(self_, n):
             if n.id == "self":
                 raise Untranslatable(n, "self used other than as self._field / self._method(...)")
-            if n.id in consts:
+            if n.id in live_consts:
                 if not isinstance(n.ctx, ast.Load):
-                    raise Untranslatable(n, f"assignment to the specialised parameter {n.id}")
-                return ast.copy_location(ast.Constant(value=consts[n.id]), n)
+                    stored_now.add(n.id)         # from the next statement on it is an ordinary local
+                    return n
+                return ast.copy_location(ast.Constant(value=live_consts[n.id]), n)
             return n
 
     def fold(n):
@@ -1493,8 +1550,21 @@ def specialise(node, cls, out_name, consts, method_fields):
                 if any(n_ == x.id and isinstance(t_, tuple) for _, b_ in pool_locals for n_, t_ in b_):
                     raise Untranslatable(x, "a pool function is re-bound")
         kept = [k_ for k_ in kept if k_ not in sel_names]
+    live_consts = dict(consts)
     for st in stmts_in:
+        stored_now = set()
+        # a specialised parameter that is re-bound: its loads are the constant only up to the statement that stores it, and in that
+        # statement only inside an `if` test (if p is None: p = <default>)
+        for c_ in live_consts:
+            stores = [x for x in ast.walk(st) if isinstance(x, ast.Name) and x.id == c_ and not isinstance(x.ctx, ast.Load)]
+            if stores:
+                loads_ok = isinstance(st, ast.If) and all(isinstance(x.ctx, ast.Store) or x in list(ast.walk(st.test))
+                                                          for x in ast.walk(st) if isinstance(x, ast.Name) and x.id == c_)
+                if not loads_ok:
+                    raise Untranslatable(st, f"the specialised parameter {c_} is read and re-bound in one statement")
         r = fold(Rw().visit(st))
+        for c_ in stored_now:
+            live_consts.pop(c_, None)
         for r1 in (r if isinstance(r, list) else [r]):
             if dict_param is not None:
                 r1 = DictRw().visit(r1)
@@ -1511,6 +1581,8 @@ def specialise(node, cls, out_name, consts, method_fields):
 
 
 CALL_POS = {"lehmer_mean": ("x", "power", "weight")}
+# static helpers called through self: name -> (translated specialisation, number of positional arguments of that call shape)
+STATIC_VIA_SELF = {"bit_to_int": ("bit_to_int_powers", 2), "gray_to_bit": ("gray_to_bit", 1)}
 
 
 def indent(text):
